@@ -41,6 +41,22 @@ CLAIMED = {
             "Trusts vf/symx, numpy/autoray structural ops; numpy interface; batch size 2; DiagonalQubitUnitary and "
             "templates outside reach (bounded stand-in / unverified).",
             "DESIGN.md 4 C07", "E2"),
+    "C08": ("proof",
+            "contract on qp.is_commuting (positive answer => the matrices commute on the joint register; Pauli words: answer == "
+            "matrix commutation): the REAL function is called on real operator instances (float twins at two generic parameter "
+            "points) for every pair of instances and every overlapping relative wire placement; each positive answer is "
+            "discharged by proving that the commutator of the two real matrix kernels, executed on exact SYMBOLIC parameters and "
+            "embedded in the joint register, vanishes identically (Laurent normal form); Pauli-word exactness by complete "
+            "enumeration on a 3-wire register; value-dependent branches (U2/U3/Rot/CRot, simplify at special angles) by a "
+            "labelled bounded float stand-in",
+            "~11000 positive answers over 68 operator instances (all named gates with <= 3 wires, MultiRZ, MultiControlledX, "
+            "generic controlled operators) x overlapping placements with a joint register <= 4 wires are proved for ALL parameter "
+            "values; the lookup tables (X/Y/Z/SWAP groups, 'ctrl' entries) and the control/target case split are thereby "
+            "checked entry by entry; 9216 Pauli-word pairs exact in both directions.",
+            "Size-bounded in wire placements; generic parameter values (positive answers produced at the special angles where "
+            "qp.simplify rewrites a rotation are only covered by the bounded stand-in); unbounded-arity operators beyond 3 "
+            "wires and templates outside. F24 (SWAP group on partially overlapping wires) fixed in repo.",
+            "DESIGN.md 4 C08", "E2"),
     "C09": ("proof",
             "contract on each parametrized gate: exponent differences of exp(i*theta_k) in the exact Laurent normal form of "
             "the real matrix lie within the declared frequencies; violations need a DFT replay on the real operator",
